@@ -465,6 +465,12 @@ pub fn run(ctx: &Ctx) {
         ss.extend(alpha::naf_scalars(w, &npos, false));
     }
     ss.extend(alpha::sc_ints().into_iter().filter(|x| x.bits() <= 255));
+    // every odd NAF(8)/NAF(5) table index, added to a non-identity accumulator and negated
+    for k in (1u64..128).step_by(2) {
+        ss.push(U::from_u64(256 + k));
+        ss.push(U::from_u64(256 - k));
+        ss.push(U::pow2(200).add(&U::from_u64(k).shl(100)));
+    }
     {
         let mut seen = std::collections::HashSet::new();
         ss.retain(|x| seen.insert(*x));
